@@ -98,6 +98,9 @@ func (rr RuleRef) view(full *report.RuleResult) *report.RuleResult {
 	if v.Floor == 0 {
 		v.Floor = 1
 	}
+	if v.Floor < 0 {
+		v.Floor = 0 // scoped view of a pattern rule whose instances may legitimately all be written another way
+	}
 	for _, ob := range full.Obs {
 		ok := len(rr.Scope) == 0
 		for _, s := range rr.Scope {
